@@ -363,6 +363,8 @@ def machine_factory(ctx):
             self.world = World()
 
         def do(self, op):
+            if getattr(self, 'dead', False):
+                return            # a swallowed (known / already reported / over-budget) failure: the world is out of step, stop here
             self.ops.append(op)
             try:
                 self.world.apply(op)
@@ -371,6 +373,7 @@ def machine_factory(ctx):
                 v.case = {'ops': list(self.ops)}
                 if ctx.should_raise(v, v.case):
                     raise
+                self.dead = True
 
         @rule(t=idx, f=st.sampled_from(['version', 'locktime']), v=gen.u32)
         def set_field(self, t, f, v):
